@@ -145,6 +145,7 @@ macro_rules! impl_bit {
             Framebuffer<C, $raw_type, BO, WIDTH, HEIGHT, N>
         where
             C: PixelColor<Raw = $raw_type>,
+            BO: DataOrder,
         {
             /// Sets the color of a pixel.
             ///
@@ -152,16 +153,16 @@ macro_rules! impl_bit {
             pub fn set_pixel(&mut self, p: Point, c: C) {
                 if let (Ok(x), Ok(y)) = (usize::try_from(p.x), usize::try_from(p.y)) {
                     if x < WIDTH && y < HEIGHT {
-                        let pixels_per_bit = 8 / C::Raw::BITS_PER_PIXEL;
+                        let pixels_per_byte = 8 / C::Raw::BITS_PER_PIXEL;
                         let bits_per_row = WIDTH * C::Raw::BITS_PER_PIXEL;
                         let bytes_per_row = (bits_per_row + 7) / 8;
-                        let byte_index = bytes_per_row * y + (x / pixels_per_bit);
-                        let bit_index = 8 - (x % pixels_per_bit + 1) * C::Raw::BITS_PER_PIXEL;
 
-                        let mask = !((2u8.pow(C::Raw::BITS_PER_PIXEL as u32) - 1) << bit_index);
-                        let bits = c.into().into_inner() << bit_index;
+                        // Each row starts at a byte boundary. The position of the pixel inside
+                        // the byte depends on the data order and is determined by `store`.
+                        let index = bytes_per_row * pixels_per_byte * y + x;
 
-                        self.data[byte_index] = self.data[byte_index] & mask | bits;
+                        // `store` can't fail, because `x` and `y` are inside the framebuffer.
+                        let _ = c.into().store::<BO>(&mut self.data, index);
                     }
                 }
             }
@@ -171,6 +172,7 @@ macro_rules! impl_bit {
             for Framebuffer<C, $raw_type, BO, WIDTH, HEIGHT, N>
         where
             C: PixelColor<Raw = $raw_type> + Into<$raw_type>,
+            BO: DataOrder,
         {
             type Color = C;
             type Error = Infallible;
